@@ -139,3 +139,43 @@ func literalExpr(r *hx.Rng) string {
 	}
 	return sb.String()
 }
+
+// Boolean-valued subexpressions (comparison / logical results, also through `if`) feeding arithmetic, comparisons and
+// numeric functions: true must count as the NUMBER 1 of the evaluator's type.
+var boolTemplates = []string{"(a < b) + c", "(a > b) * c", "a == b == c", "a < b == c", "a > b > c", "a != b != c", "max(a < b, c)", "min(a <= b, a >= b)",
+	"abs(a != b)", "-(a < b)", "!(a < b)", "+(a >= b)", "-(a == a) + c", "if(a < b, a == b, c) + 1", "if(if(a < b, a == b, a != b), c, d)", "if(a < b, c, d) * (a < b)",
+	"(a < b) / (c > d)", "(a < b) % 2", "sqrt(a == a)", "(a && b) + 1", "(a || b) * 3", "(a < b) == 1", "1 == (a < b)", "(a < b) < 0.5", "(a < b) - (c < d)",
+	"(a < b) ^ 2", "2 ^ (a < b)", "floor((a < b) / 2)", "round((a < b) * 0.5)", "(a < b) + (c < d) + (a == b)", "a == a == 1", "a < b == 1", "c > b > 0.5",
+	"max(a < b, 0.5)", "(a > b) * 5", "(a < b) + 1", "ceil((a >= b) * 0.3)", "!(a < b) + 1", "(!a) * 4", "a < b && c", "(a < b && c < d) * 7", "exp2(a < b)",
+	"abs(-(a < b))", "if((a < b) - 1, c, d)", "if(a < b, a < b, c) == 1", "(a < b) >= (c < d)", "log10((a < b) * 100)", "(a == b) + foo", "(a < b) == true"}
+
+var boolAtoms = []string{"0", "1", "2", "3", "0.5", "2.5", "7", "10", "$x", "$y", "$z", "$h", "$n", "1e-2", "100"}
+
+func boolExpr(r *hx.Rng) string {
+	t := hx.Pick(r, boolTemplates)
+	vals := map[rune]string{'a': hx.Pick(r, boolAtoms), 'b': hx.Pick(r, boolAtoms), 'c': hx.Pick(r, boolAtoms), 'd': hx.Pick(r, boolAtoms)}
+	var sb strings.Builder
+	prev := ' '
+	rs := []rune(t)
+	for i, ch := range rs {
+		next := ' '
+		if i+1 < len(rs) {
+			next = rs[i+1]
+		}
+		isVar := ch >= 'a' && ch <= 'd' && !isLetter(prev) && !isLetter(next)
+		if isVar {
+			sb.WriteString(vals[ch])
+		} else if ch == ' ' && r.Chance(1, 3) {
+			// drop or widen blanks
+			if r.Bool() {
+				sb.WriteString("  ")
+			}
+		} else {
+			sb.WriteRune(ch)
+		}
+		prev = ch
+	}
+	return sb.String()
+}
+
+func isLetter(ch rune) bool { return (ch >= 'a' && ch <= 'z') || (ch >= '0' && ch <= '9') || ch == '.' }
